@@ -938,13 +938,13 @@ def krome_reset(ctx, pkg, rule="R4"):
                 # a Reaction INSTANCE was parsed elsewhere: nothing is read here, nothing to reset
                 if c[0] == "call" and c[1] == ("global", "isinstance") and len(c[2]) == 2 and c[2][0][0] == "param" and c[2][1] == ("global", "Reaction"):
                     continue
-                # a compound condition (e.g. what is left of an `unknown format -> raise` guard clause) that always holds when a
-                # string is read and its format class exists skips nothing: propositional consequence of those two facts
+                # any boolean combination of those two facts (guard clauses, De Morgan, a local flag `from_string = not isinstance(..)`):
+                # a condition that holds whenever a string is read and its format class exists skips no reset
                 from ..valueflow import guards_satisfiable, walk as _walk
-                given = [(recv, True)] + [(x, False) for x in dict.fromkeys(y for y in _walk(c) if isinstance(y, tuple) and len(y) == 4 and y[0] == "call"
-                                                                            and y[1] == ("global", "isinstance") and len(y[2]) == 2 and y[2][0][0] == "param"
-                                                                            and y[2][1] == ("global", "Reaction"))]
-                if not guards_satisfiable(given, [(c, not pol)]):
+                isi = {x for x in _walk(c) if isinstance(x, tuple) and len(x) == 4 and x[0] == "call" and x[1] == ("global", "isinstance") and len(x[2]) == 2
+                       and x[2][0][0] == "param" and x[2][1] == ("global", "Reaction")}
+                assume = [(recv, True), (("cmp", ("Is",), (recv, ("const", None))), False), (("cmp", ("Eq",), (recv, ("const", None))), False)] + [(x, False) for x in isi]
+                if not guards_satisfiable(assume, [(c, not pol)]):
                     continue
                 extra.append(_guard_text([(c, pol)]))
             ctx.check(not extra, rule, f"Network.{mname}:initialize for every file", (NF, f.line),
